@@ -207,6 +207,17 @@ func (ch c20) Run(c *core.Ctx) {
 			c.Count("huge_index_queries", 1)
 		}
 		bound := uint64(512*len(q) + 4<<20) // linear in the query (regexp match lists) plus room for 65535 placeholders
+		// the runtime accounts small allocations when a span is exchanged, so one reading may include
+		// allocations made earlier (by anyone): on an excess the call is measured again and the
+		// smallest reading counts - the cost of a call is deterministic, the noise only adds
+		for rep := 0; rep < 6 && delta > bound; rep++ {
+			before = allocated()
+			wire.ParseParameters(q)
+			if d := allocated() - before; d < delta {
+				delta = d
+			}
+			c.Count("alloc_remeasurements", 1)
+		}
 		if delta > bound {
 			c.Violate("alloc", "allocation not bounded by the 65535-parameter limit", fmt.Sprintf("query %q allocated %d bytes (bound %d)", trim(q, 100), delta, bound), cs)
 			continue
